@@ -7,21 +7,12 @@
   All theorems hold for every shape `nx ny nz` and both arrangements; the
   hypothesis `i < nTot nx ny nz` ("`i` is a vial") implies `nx, ny, nz ≥ 1`.
 -/
-import SnowProofs.Lemmas.Topology
-import Mathlib.Algebra.BigOperators.Ring.Finset
-import Mathlib.Algebra.BigOperators.Group.Finset.Sigma
+import SnowProofs.Lemmas.Heat
 
 namespace Snow.C09
 open Snow.Topology
 
 variable {nx ny nz : Nat} {i j : Nat}
-
-/-- entry of the interaction pattern in terms of the geometric relation -/
-theorem entry_geom (arr : Arr) (hi : i < nTot nx ny nz) (hj : j < nTot nx ny nz) :
-    entry arr nx ny nz i j
-      = if geomNbr arr (coords nx ny i) (coords nx ny j) = true then 1 else 0 := by
-  have := entry_eq arr (coords_inBox hi) (coords_inBox hj)
-  rwa [idx_coords, idx_coords] at this
 
 /-- **two vials exchange heat iff they are geometric neighbours** in the declared
 arrangement (square: 4 in-plane neighbours; hexagonal: 6, alternate rows offset; plus
@@ -89,40 +80,6 @@ variable {R : Type} [CommRing R]
 
 /-- `H_int[i, j]` -/
 def H (k A : R) (arr : Arr) (nx ny nz i j : Nat) : R := k * A * ((imat arr nx ny nz i j : Int) : R)
-
-theorem S_eq_sum (N : Nat) (f : Nat → Nat) : S N f = ∑ j ∈ range N, f j := by
-  induction N with
-  | zero => rfl
-  | succ n ih => rw [S_succ, ih, Finset.sum_range_succ]
-
-theorem imat_row_sum (arr : Arr) (hi : i < nTot nx ny nz) :
-    ∑ j ∈ range (nTot nx ny nz), imat arr nx ny nz i j = 0 := by
-  have hii : entry arr nx ny nz i i = 0 := by
-    have := adj_irrefl arr hi
-    simpa [adj] using this
-  have h1 : ∀ j, imat arr nx ny nz i j
-      = (entry arr nx ny nz i j : Int) - (if j = i then (deg arr nx ny nz i : Int) else 0) := by
-    intro j
-    unfold imat
-    by_cases h : i = j
-    · subst h; simp [hii]
-    · have h' : ¬ j = i := fun e => h e.symm
-      simp [h, h']
-  have hi' : i ∈ range (nTot nx ny nz) := Finset.mem_range.mpr hi
-  rw [Finset.sum_congr rfl (fun j _ => h1 j), Finset.sum_sub_distrib, Finset.sum_ite_eq' (range _) i,
-    if_pos hi']
-  have : ((deg arr nx ny nz i : Nat) : Int) = ∑ j ∈ range (nTot nx ny nz), (entry arr nx ny nz i j : Int) := by
-    have : deg arr nx ny nz i = S (nTot nx ny nz) (entry arr nx ny nz i) := rfl
-    rw [this, S_eq_sum]; push_cast; rfl
-  rw [this]; exact sub_self _
-
-theorem imat_symm (arr : Arr) (nx ny nz i j : Nat) : imat arr nx ny nz i j = imat arr nx ny nz j i := by
-  unfold imat
-  by_cases h : i = j
-  · subst h; rfl
-  · have h' : ¬ j = i := fun e => h e.symm
-    simp only [h, h', if_false]
-    unfold entry; rw [Nat.add_comm]
 
 /-- rows of `H_int` sum to zero -/
 theorem row_sum_zero (k A : R) (arr : Arr) (hi : i < nTot nx ny nz) :
